@@ -53,7 +53,7 @@ def run(ctx, res):
     res.require_min("R-LIN", 15)
     # the inductive cursor invariant, laps included (channelinduct.py)
     from ..channelinduct import rule_induct
-    res.guard(rule_induct, prog, res)
+    res.guard(rule_induct, prog, res, with_mapped=True)
     res.require_min("R-INDUCT", 12)
     res.require_min("R-DRAIN", 2)
     # the channel clauses every flush loop depends on (anchored in channel.c)
@@ -65,4 +65,6 @@ def run(ctx, res):
     res.require_min("LOOP-UNTIL", 1)
     res.require_min("R-WIRING", 6)
     res.require_min("R-FRAME-ID", 2)
+    res.guard(RR.rule_stop_chain, prog, res)
+    res.require_min("R-STOP-CHAIN", 2)
     res.require_min("R-CONSUME", 3)
